@@ -58,3 +58,61 @@ pub fn ok<T>(r: Result<T, std::io::Error>) -> Option<T> {
 }
 
 pub fn noop_mut<T>(_: &mut T) {}
+
+// ---- invocation log shared by the registry-level harnesses ------------------
+pub const NLOG: usize = 8;
+#[allow(non_snake_case)]
+pub mod L {
+    use super::NLOG;
+    pub static mut log: [u8; NLOG] = [0; NLOG]; // action tags in invocation order
+    pub static mut stamp: [u32; NLOG] = [0; NLOG];
+    pub static mut n: usize = 0;
+}
+pub fn hit(tag: u8) {
+    unsafe {
+        if L::n < NLOG {
+            L::log[L::n] = tag;
+            L::stamp[L::n] = vshim::next_stamp();
+        }
+        L::n += 1;
+    }
+}
+pub fn clear_log() {
+    unsafe { L::n = 0 }
+}
+
+/// One kernel delivery of `sig` to whatever disposition the model holds; if it
+/// is the library's dispatcher, the real `handler` runs (with a zeroed siginfo).
+pub fn deliver(sig: c_int) {
+    unsafe {
+        let mut info: libc::siginfo_t = core::mem::zeroed();
+        info.si_signo = sig;
+        deliver_info(sig, &mut info);
+    }
+}
+pub fn deliver_info(sig: c_int, info: *mut libc::siginfo_t) {
+    unsafe {
+        let h = K::disp[sig as usize].handler;
+        if h == reg::handler_addr() {
+            vshim::delivery_enter();
+            reg::call_handler(sig, info, 0x77 as *mut libc::c_void);
+            vshim::delivery_exit();
+        }
+    }
+}
+
+/// NEST filter for deliveries nested in registry mutators: a nested delivery is
+/// complete (reader counters are back to their old values afterwards), so
+/// arriving before any of the counter loads of `update_seen` is indistinguishable
+/// from arriving before the next other shim point.  Skipping those points keeps
+/// the spin loop of `write_barrier` from multiplying the inlined dispatcher.
+pub static mut COUNTER_VARS: [usize; 4] = [usize::MAX; 4];
+pub fn skip_point(kind: u8, var: usize) -> bool {
+    unsafe {
+        kind == vshim::OP_LOAD
+            && (var == COUNTER_VARS[0] || var == COUNTER_VARS[1] || var == COUNTER_VARS[2] || var == COUNTER_VARS[3])
+    }
+}
+pub fn arm_filter() {
+    unsafe { COUNTER_VARS = reg::lock_counter_vars() };
+}
